@@ -97,6 +97,22 @@ def main():
                     if m:
                         sites[rel][kind].append("%s:%d: %s" % (rel, ln, re.sub(r"[^A-Za-z0-9_ .:<>!/-]", "", m.group(0)).strip()))
                         break
+    # structural trait implementations: the derive list of every type and every hand-written impl of a trait whose
+    # DERIVED semantics the models rely on (a hand-written Clone / PartialEq / Hash / Ord / Drop can carry state or
+    # compare something else than the fields, e.g. leave stale bytes behind in clone_from)
+    STRUCTURAL = ("Clone", "Copy", "PartialEq", "Eq", "Hash", "Ord", "PartialOrd", "Drop")
+    traits = {}
+    for f in files:
+        rel = os.path.relpath(f, REPO)
+        if rel == "src/verif_hooks.rs": continue
+        src = cut_tests(strip(open(f).read()))
+        items = []
+        for m in re.finditer(r"#\[derive\(([^)]*)\)\]\s*(?:#\[[^\]]*\]\s*)*(?:pub(?:\([^)]*\))?\s+)?(?:struct|enum)\s+(\$?\w+)", src):
+            ds = sorted(x.strip() for x in m.group(1).split(",") if x.strip())
+            items.append("%s: %s derives %s" % (rel, m.group(2), " ".join(ds)))
+        for m in re.finditer(r"\bimpl(?:<[^>]*>)?\s+(?:core::|std::)?(?:\w+::)*(\w+)\s+for\s+(\$?\w+)", src):
+            if m.group(1) in STRUCTURAL: items.append("%s: hand-written impl %s for %s" % (rel, m.group(1), m.group(2)))
+        traits[rel] = sorted(items)
     props = []
     pj = os.path.join(os.path.dirname(os.path.abspath(__file__)), "..", "properties.jsonl")
     for line in open(pj):
@@ -118,6 +134,7 @@ def main():
             tot += len(items)
             out.append("Definition %s_%s : list string := [%s]." % (kind, pid, "; ".join('"%s"' % i for i in items)))
             for i in items: print("  %s %s: %s" % (pid, kind, i))
+        out.append("Definition structural_traits_%s : list string := [%s]." % (pid, "; ".join('"%s"' % i for f in sorted(seen) for i in traits.get(f, []))))
         out.append("Definition source_files_scanned_%s : nat := %d." % (pid, len(seen)))
     text = "\n".join(out) + "\n"
     old = open(OUT).read() if os.path.exists(OUT) else None
